@@ -636,6 +636,17 @@ func (self PathNode) marshal(p *thrift.BinaryProtocol, opts *Options) error {
 		return self.Node
 	}
 	if len(self.Next) == 0 {
+		if self.Node.l == 0 && self.Node.t.IsComplex() {
+			// loaded with NotScanParentNode (no raw bytes of its own) and it has no children: it is empty
+			switch self.Node.t {
+			case thrift.STRUCT:
+				return p.WriteStructEnd()
+			case thrift.LIST, thrift.SET:
+				return p.WriteListBegin(self.et, 0)
+			default:
+				return p.WriteMapBegin(self.kt, self.et, 0)
+			}
+		}
 		p.Buf = append(p.Buf, self.raw()...)
 		return nil
 	}
